@@ -169,7 +169,10 @@ def run(chk):
                 chk.record('scopeA-oracle', dict(concrete=True, input=a, impl=o[:3000], model=m[:3000], config=cfgtxt,
                            what='JSON / key / cross-format oracle failed under a generated mapping file'), {})
             else:
-                bad.append((a, o, m))
+                # generated mapping file + generated traffic is the property's own domain and the model compiled from
+                # the same abstract configuration is its reference: a disagreement is a concrete violation
+                chk.record('scopeA', dict(concrete=True, input=a[:60000], impl=o[:3000], expected=m[:3000], config=cfgtxt,
+                           what='output under a generated mapping file differs from the reference compiled from the same configuration'), {})
     if ins and len(chk.samples) < 6:
         chk.samples.append(dict(stream='configs', config=bytes.fromhex(ins[0].split(' ')[2][5:]).decode()[:1200],
                                 model=mod[0][:500], impl=impl[0][:500]))
